@@ -81,7 +81,9 @@ type Enc struct {
 	IsObj bool  `json:"io,omitempty"`
 	// Lay: struct layout of an object. 0: embedded In/Out first. 1: embedded last. 4: embedded after the
 	// first field. Parameter objects only: 2: embedded first, tagged ignore-unexported:"true", an
-	// unexported field last; 3: an unexported field first, then the tagged embed.
+	// unexported field last; 3: an unexported field first, then the tagged embed. Composition by embedding
+	// (objects that hold at least one nested object): 5: the nested objects are embedded anonymously and the
+	// object has no dig.In/dig.Out of its own; 6: embedded In/Out first, nested objects embedded anonymously.
 	Lay int `json:"lay,omitempty"`
 }
 
@@ -92,7 +94,10 @@ type Fn struct {
 	Results  []Res   `json:"r,omitempty"`
 	PEnc     []Enc   `json:"pe,omitempty"` // nil: derived (object iff tags are needed)
 	REnc     []Enc   `json:"re,omitempty"`
-	HasErr   bool    `json:"e,omitempty"`  // trailing error result
+	HasErr   bool    `json:"e,omitempty"`  // error result (trailing unless ErrPos says otherwise)
+	// ErrPos (constructors and decorators with HasErr, dynamic functions only): 0: the error is the last
+	// result; 1: it is the FIRST result; 2: an error result first (it carries the fault) and another one last.
+	ErrPos int `json:"ep,omitempty"`
 	Variadic bool    `json:"va,omitempty"` // extra trailing variadic parameter (...V7)
 	// Faults: execution number (1-based) -> "err" | "panic". Key 0 means every execution.
 	Faults map[int]string `json:"f,omitempty"`
@@ -123,6 +128,9 @@ func (f *Fn) Sig() string {
 	s := fmt.Sprintf("f%d(%s)->(%s)", f.ID, strings.Join(ps, ","), strings.Join(rs, ","))
 	if f.HasErr {
 		s += "+err"
+		if f.ErrPos > 0 {
+			s += fmt.Sprintf("(pos%d)", f.ErrPos)
+		}
 	}
 	if f.Variadic {
 		s += "+variadic"
